@@ -3,7 +3,13 @@ package c08
 import (
 	"encoding/binary"
 	"fmt"
+	"go/ast"
+	"go/parser"
+	"go/token"
 	"math/big"
+	"path/filepath"
+	"sort"
+	"strconv"
 
 	ethcomm "github.com/ethereum/go-ethereum/common"
 	"github.com/ethereum/go-ethereum/crypto"
@@ -75,6 +81,119 @@ func (g *hgen) word() []byte {
 	}
 }
 
+// ---------- size thresholds read from the source ----------
+
+// sourceConstants returns every integer literal between 64 and 16384 that occurs in the memdb and
+// StateDB/CacheDB sources (buffer capacities, thresholds). Bursts of overwrites are sized around
+// them, so a behaviour that only starts beyond some buffer size is reached whatever the size is.
+var (
+	srcConstsDone bool
+	srcConsts     []int
+)
+
+func sourceConstants(repo string) []int {
+	if srcConstsDone {
+		return srcConsts
+	}
+	srcConstsDone = true
+	seen := map[int]bool{}
+	for _, f := range []string{"core/store/overlaydb/memdb.go", "core/store/overlaydb/overlaydb.go",
+		"smartcontract/storage/statedb.go", "smartcontract/storage/cachedb.go"} {
+		fset := token.NewFileSet()
+		af, err := parser.ParseFile(fset, filepath.Join(repo, f), nil, 0)
+		if err != nil {
+			continue
+		}
+		ast.Inspect(af, func(n ast.Node) bool {
+			if bl, ok := n.(*ast.BasicLit); ok && bl.Kind == token.INT {
+				if v, err := strconv.ParseInt(bl.Value, 0, 64); err == nil && v >= 64 && v <= 16384 {
+					seen[int(v)] = true
+				}
+			}
+			return true
+		})
+	}
+	for v := range seen {
+		srcConsts = append(srcConsts, v)
+	}
+	sort.Ints(srcConsts)
+	return srcConsts
+}
+
+// bytes one SetState overwrite appends to the append-only kv buffer: prefix + address + slot + value
+const burstStride = 1 + 20 + 32 + 32
+
+// burst: N overwrites of one slot (one step of the history; getters are read after the last write).
+func (g *hgen) burst() Op {
+	n := 10 + g.c.Intn(51)
+	if cs := sourceConstants(g.c.Repo); len(cs) > 0 && g.c.Intn(4) > 0 {
+		n = cs[g.c.Intn(len(cs))]/burstStride + 1 + []int{-1, 0, 1, 2, 3, 6}[g.c.Intn(6)]
+		if g.c.Intn(4) == 0 {
+			n *= 2 // garbage above twice the size as well (thresholds relative to the live content)
+		}
+	}
+	if n < 2 {
+		n = 2
+	}
+	if n > 420 {
+		n = 420
+	}
+	return Op{Op: "Burst", A: g.addr(), S: g.slot(), N: uint64(n), Idx: int64(1 + g.c.Intn(1<<30))}
+}
+
+// prologue: an earlier transaction that leaves committed accounts, balances, code and storage.
+type committed struct {
+	nonce   uint64
+	hasCode bool
+	bal     string
+}
+
+var safeAmounts = []string{"1", "7", "1000000000", "1500000000", "5000000000", "128", "18446744073709551615", "999999999000000000"}
+
+func (g *hgen) prologue() {
+	g.comm = make([]committed, len(g.h.Addrs))
+	for a := range g.h.Addrs {
+		if g.c.Intn(4) > 0 {
+			n := uint64(1 + g.c.Intn(9))
+			g.h.Pre = append(g.h.Pre, Op{Op: "SetNonce", A: a, N: n})
+			g.comm[a].nonce = n
+		}
+		if g.c.Intn(3) == 0 {
+			g.h.Pre = append(g.h.Pre, Op{Op: "SetCode", A: a, Code: hx.Hex(g.c.Bytes(1 + g.c.Intn(6)))})
+			g.comm[a].hasCode = true
+		}
+		if g.c.Intn(4) > 0 {
+			am := safeAmounts[g.c.Intn(len(safeAmounts))]
+			g.h.Pre = append(g.h.Pre, Op{Op: "AddBalance", A: a, Amt: am})
+			g.comm[a].bal = am
+		}
+		for s := range g.h.Slots {
+			if g.c.Intn(2) == 0 {
+				g.h.Pre = append(g.h.Pre, Op{Op: "SetState", A: a, S: s, Val: hx.Hex(g.word())})
+			}
+		}
+	}
+}
+
+// deletions: ops that turn committed keys into deletion marks of the transaction memdb
+// (an emptied account, a balance brought to zero, a self-destruct).
+func (g *hgen) deletions() []Op {
+	var out []Op
+	for a, cm := range g.comm {
+		if cm.nonce != 0 && !cm.hasCode && g.c.Intn(3) > 0 {
+			out = append(out, Op{Op: "SetNonce", A: a, N: 0})
+		}
+		if cm.bal != "" && g.c.Intn(3) > 0 {
+			out = append(out, Op{Op: "SubBalance", A: a, Amt: cm.bal})
+		}
+		if (cm.nonce != 0 || cm.hasCode) && g.c.Intn(5) == 0 {
+			out = append(out, Op{Op: "Suicide", A: a})
+		}
+	}
+	g.c.Rng.Shuffle(len(out), func(i, j int) { out[i], out[j] = out[j], out[i] })
+	return out
+}
+
 // ---------- generator ----------
 
 type hgen struct {
@@ -85,6 +204,7 @@ type hgen struct {
 	logID uint64
 	vals  []string // values written so far (hex)
 	codes []string
+	comm  []committed // what the prologue committed, per address
 }
 
 var amounts = []string{"0", "1", "7", "127", "128", "255", "256", "32767", "32768", "999999999", "1000000000", "1000000001",
@@ -360,22 +480,78 @@ func (g *hgen) backend(malformed bool) {
 
 func genHist(c *hx.Ctx, i int) *Hist {
 	g := &hgen{c: c, h: &Hist{}}
-	kinds := []string{"random", "random", "random", "nested", "nested", "alias", "alias", "older", "suicide", "refund", "logs", "badids",
-		"random", "nested", "alias", "older", "suicide", "big"}
+	kinds := []string{"random", "compact", "random", "nested", "compact", "alias", "alias", "older", "suicide", "refund", "logs", "badids",
+		"random", "nested", "compact", "older", "suicide", "big", "random", "nested", "alias", "compact"}
 	kind := kinds[i%len(kinds)]
 	g.h.Kind = kind
-	if kind == "big" {
+	switch kind {
+	case "big":
 		g.universe(2, 5)
-	} else {
+	case "compact":
+		g.universe(2, 1+c.Intn(2))
+	default:
 		g.universe(2+c.Intn(2), 1+c.Intn(2))
 	}
-	g.backend(c.Intn(6) == 0)
+	if kind != "compact" || c.Intn(3) == 0 {
+		g.backend(c.Intn(6) == 0)
+	}
+	if kind == "compact" || c.Intn(3) == 0 {
+		g.prologue()
+	}
 	g.push(Op{Op: "CreateAccount", A: 0}) // first step: reads of the untouched backend
 	switch kind {
+	case "compact":
+		// committed state, deletion marks over it, overwrite garbage, snapshot, changes, revert(s)
+		rounds := 1 + c.Intn(2)
+		for r := 0; r < rounds; r++ {
+			pre := g.deletions()
+			if len(pre) == 0 || c.Intn(4) == 0 {
+				pre = append(pre, g.write())
+			}
+			bursts := 1 + c.Intn(2)
+			cut := c.Intn(len(pre) + 1) // deletions before and after the garbage
+			for _, o := range pre[:cut] {
+				g.push(o)
+			}
+			for b := 0; b < bursts; b++ {
+				g.push(g.burst())
+			}
+			for _, o := range pre[cut:] {
+				g.push(o)
+			}
+			g.push(Op{Op: "Snapshot"})
+			for j := 1 + c.Intn(3); j > 0; j-- {
+				g.push(g.write())
+			}
+			if c.Intn(3) == 0 { // bring a deleted account back inside the frame
+				a := g.addr()
+				g.push(Op{Op: "SetNonce", A: a, N: uint64(20 + c.Intn(5))})
+				g.push(Op{Op: "AddBalance", A: a, Amt: safeAmounts[c.Intn(len(safeAmounts))]})
+			}
+		}
+		for g.depth > 0 {
+			idx := int64(g.depth - 1)
+			if c.Intn(3) == 0 {
+				idx = int64(c.Intn(g.depth))
+			}
+			g.push(Op{Op: "Revert", Idx: idx})
+			if c.Intn(2) == 0 {
+				g.push(g.write())
+			}
+		}
 	case "random":
 		n := 8 + c.Intn(30)
 		for j := 0; j < n; j++ {
-			g.push(g.randomOp())
+			switch x := c.Intn(40); {
+			case x == 0:
+				g.push(g.burst())
+			case x == 1 && len(g.comm) > 0:
+				for _, o := range g.deletions() {
+					g.push(o)
+				}
+			default:
+				g.push(g.randomOp())
+			}
 		}
 	case "nested":
 		// build levels, then unwind from the inside out, with writes in between
